@@ -294,3 +294,17 @@ def assume_library(fobj, name, result=None):
 
     builtins_model.LIB[fobj] = handler
     return handler
+
+
+def stub(key, params, returns=None):
+    """A traced, contract-less stand-in for a callee, private to one caller's contract (the callee itself
+    is verified under its own contract elsewhere)."""
+    from . import sorts as T
+    c = Contract(key.split("#")[0], [], False)
+    c.abstract = True
+    c.traced = True
+    for p in params:
+        c.param(p, T.Opaque(p))
+    if returns is not None:
+        c.returns(returns)
+    return c
